@@ -408,6 +408,24 @@ def queued_waiters(ctx):
     set_in_teardown = {dotted(n.targets[0]) for n in walk_local(od) if isinstance(n, ast.Assign) and isinstance(n.value, ast.Constant) and n.value.value is True}
     R.check(ok and bool(flags & set_in_teardown), rule, 'bumble.gatt_client.Client.send_request | queued request after teardown', f'after obtaining the request semaphore a flag set by on_disconnection ({sorted(flags & set_in_teardown)}) is tested before anything is sent',
             'a request queued behind another one when the bearer closed proceeds after the teardown: it is sent into the closed connection and waits for the whole GATT timeout (only the in-flight request was cancelled)', p.loc(sr))
+    # the HCI command queue of the host: a command that obtains the command semaphore after the transport was lost
+    # (it was queued behind the pending one, or is issued later) is refused before anything is sent, and gives the semaphore back
+    sc = p.find('bumble.host.Host._send_command')
+    tl = p.find('bumble.host.Host.on_transport_lost')
+    if sc is None or tl is None:
+        R.bad(rule, 'bumble.host.Host._send_command / on_transport_lost', 'anchor missing')
+    else:
+        set_true = {dotted(n.targets[0]) for n in walk_local(tl) if isinstance(n, ast.Assign) and isinstance(n.value, ast.Constant) and n.value.value is True}
+        acq = next((i for i, s_ in enumerate(sc.body) if 'self.command_semaphore.acquire()' in norm(s_)), None)
+        snd = next((i for i, s_ in enumerate(sc.body) if any(dotted(c.func) == 'self.send_hci_packet' for c in calls_in(s_))), None)
+        guard = None
+        if acq is not None and snd is not None:
+            for s_ in sc.body[acq + 1:snd]:
+                if isinstance(s_, ast.If) and {dotted(x) for x in ast.walk(s_.test) if isinstance(x, ast.Attribute)} & set_true and s_.body and isinstance(s_.body[-1], ast.Raise):
+                    guard = s_
+        rel = guard is not None and any(dotted(c.func) == 'self.command_semaphore.release' for c in calls_in(guard))
+        R.check(guard is not None and rel, rule, 'bumble.host.Host._send_command | command after transport loss', f'between obtaining the semaphore and sending, a flag set by on_transport_lost ({sorted(set_true)}) is tested: the command fails and the semaphore is released',
+                'a command that obtains the command semaphore after the transport was lost is written to the dead transport and waits forever (no response can come, no timeout by default)', p.loc(sc))
     cancels = [c for c in calls_in(od) if call_attr(c) == 'cancel' and 'pending_response' in norm(c)]
     R.check(bool(cancels), rule, 'bumble.gatt_client.Client.on_disconnection | in-flight request', 'the in-flight request is cancelled', 'the in-flight request is not cancelled on disconnection', p.loc(od))
 
